@@ -1,212 +1,12 @@
 /-
   C04 — structural Verilog write-then-read returns the same netlist.
-  ONLY property theorems and their non-vacuity examples.
+  ONLY property theorems and their non-vacuity examples.  The expression-level theorems are in `Props/C04Emit.lean`
+  (imported here); this file holds the write-order theorems (over Mathlib's `Relation.ReflTransGen`).
 -/
-import Spydr.Verilog.Lemmas
-import Spydr.Verilog.LemmasEmit
+import Spydr.Verilog.Props.C04Emit
 import Spydr.Verilog.LemmasOrder
-import Spydr.Verilog.Props.C06
 
 namespace Spydr.Verilog
-
-/-- **emit_eval.**  For every pin vector of reader shape (a block of connected pins at the low end of
-    the port, each on a bit of a declared cable; unconnected pins above), whichever form
-    `_write_instance_port` chooses — nothing, the bare name, `[i]`, `[hi:lo]`, or `{…}` with runs merged;
-    the choice is made by `_is_pinset_concatenated`, transcribed exactly — the reader evaluates the written
-    expression to exactly the connected bits (MSB first), and its port-map loop on a port of the same
-    width restores the very same pin vector. -/
-theorem emit_eval (env : CableEnv) (blk : List Bit) (m : Nat)
-    (hne : blk.map some ++ List.replicate m none ≠ []) (hv : ∀ b ∈ blk, ValidBit env b) :
-    ∃ e, emitPortExpr env (blk.map some ++ List.replicate m none) = some e ∧
-      evalExpr env e = some blk.reverse ∧
-      connectLowAligned (List.replicate (blk.map some ++ List.replicate m none).length none) blk.reverse
-        = some (blk.map some ++ List.replicate m none) := by
-  obtain ⟨e, h1, h2⟩ := emitPortExpr_eval env blk m hne hv
-  refine ⟨e, h1, h2, ?_⟩
-  rw [connect_low_aligned_fresh _ _ (by simp)]
-  simp [lowAligned]
-
-/-- the same, phrased with the executable specification predicates the harness evaluates -/
-theorem emit_eval_spec (env : CableEnv) (pins : List (Option Bit)) (hne : pins ≠ [])
-    (hs : ReaderShape env pins) :
-    ∃ e, emitPortExpr env pins = some e ∧ portRoundTrip pins (evalExpr env e) = true := by
-  obtain ⟨blk, m, hp, hv⟩ := hs
-  subst hp
-  obtain ⟨e, h1, h2, _⟩ := emit_eval env blk m hne hv
-  refine ⟨e, h1, ?_⟩
-  rw [h2]
-  simp [portRoundTrip, lowAligned]
-
-/-
-  **verilog_roundtrip** (full statement, NOT proved):
-    ∀ n = elabV a (also after uniquify / flatten / clone), ∀ options o,
-      view04 <$> elabV (parseV (printV (composeV o n))) = some (view04 n)
-  Missing: the module-level assembly (declaration order of ports/cables, module order, black boxes
-  written or re-inferred, parameters/attributes, token-level printer/parser inverse).
-  Proved instead, for all inputs: every instance connection round-trips (`verilog_roundtrip_partial`),
-  declarations (`decl_range_roundtrip`), alias header ports (`alias_header_roundtrip`), assigns
-  (`assign_regen`), and the write order (`write_order_defined`).  The end-to-end statement is evaluated on
-  the implementation for every generated / bundled netlist and option combination (harness).
--/
-
-/-- **verilog_roundtrip_partial** (instance-connection level lifted to all ports of all instances of a
-    module, all inputs): if every pin vector is non-empty and of reader shape, writing every port map
-    expression and reading it back restores every pin vector. -/
-theorem verilog_roundtrip_partial (env : CableEnv) (ports : List (List (Option Bit)))
-    (h : ∀ p ∈ ports, p ≠ [] ∧ ReaderShape env p) :
-    ports.mapM (portRT env) = some ports := by
-  induction ports with
-  | nil => rfl
-  | cons p ps ih =>
-    obtain ⟨hne, blk, m, hp, hv⟩ := h p List.mem_cons_self
-    subst hp
-    obtain ⟨e, h1, h2, h3⟩ := emit_eval env blk m hne hv
-    rw [List.mapM_cons, ih (fun x hx => h x (List.mem_cons_of_mem _ hx))]
-    simp only [portRT, h1, h2, h3]
-    rfl
-
-def exEnv : CableEnv := fun n =>
-  if n = "a" then some (4, 4) else if n = "b" then some (0, 1) else none
-
-example : ReaderShape exEnv [some ⟨"a", 5⟩, some ⟨"a", 6⟩, some ⟨"b", 0⟩, none] :=
-  ⟨[⟨"a", 5⟩, ⟨"a", 6⟩, ⟨"b", 0⟩], 1, rfl, by
-    intro b hb
-    simp only [List.mem_cons, List.not_mem_nil, or_false] at hb
-    rcases hb with rfl | rfl | rfl
-    · exact ⟨4, 4, rfl, by decide, by decide⟩
-    · exact ⟨4, 4, rfl, by decide, by decide⟩
-    · exact ⟨0, 1, rfl, by decide, by decide⟩⟩
-
-/-- a port unconnected in the middle is *not* of reader shape, and indeed does not survive
-    (candidate 23 of DESIGN §7: out of the domain of C04, the reader never produces it) -/
-example : (emitPortExpr exEnv [some ⟨"a", 5⟩, none, some ⟨"b", 0⟩]).map (evalExpr exEnv) =
-    some (some [⟨"b", 0⟩, ⟨"a", 5⟩]) := by rfl
-
-/-- **decl_range_roundtrip.**  `[msb:lsb]` written by `_write_brackets_defining` for a bundle of base
-    `lower` and width `width ≥ 1`, read back, gives base `lower` and width `width` again — both when the
-    name is new (wire declarations, ANSI header) and when the declaration meets the one-bit stub the
-    header port list created (non-ANSI body port declaration). -/
-theorem decl_range_roundtrip (lower : Int) (width : Nat) (hw : 0 < width) :
-    readDeclNew (emitDeclRange lower width) = (lower, width) ∧
-    readDeclStub (emitDeclRange lower width) = (lower, width) := by
-  unfold emitDeclRange
-  by_cases h : width = 1 ∧ lower = 0
-  · rw [if_pos h]
-    obtain ⟨h1, h2⟩ := h
-    subst h1 h2
-    exact ⟨rfl, rfl⟩
-  · rw [if_neg h]
-    have hmax : max (lower + (width : Int) - 1) lower = lower + (width : Int) - 1 := by omega
-    have hmin : min (lower + (width : Int) - 1) lower = lower := by omega
-    constructor
-    · simp only [readDeclNew, populateNew, hmax, hmin]
-      congr 1
-      omega
-    · simp only [readDeclStub, resizeCable, inRange, hmax, hmin, if_true]
-      have h1 : ¬ lower < lower := by omega
-      simp only [h1, if_false]
-      congr 1
-      · simp
-      · split <;> omega
-
-example : emitDeclRange 4 4 = some (7, 4) := by decide
-
-/-- **alias_header_roundtrip.**  A header port whose inner pins are all connected to bits of declared
-    cables is written as `.port({…})` exactly when `_is_pinset_concatenated(pins, port name)`; reading
-    the concatenation back (`parse_module_header_port_alias`) creates a port of the same width whose
-    pin `k` is on the same bit.  Otherwise it is written as the bare port name and its pins are
-    consecutive ascending bits of the cable that carries the port's name (declared in the body). -/
-theorem alias_header_roundtrip (env : CableEnv) (pname : String) (blk : List Bit)
-    (hv : ∀ b ∈ blk, ValidBit env b) :
-    (∀ as, emitHeaderPort env pname (blk.map some) = some (some as) →
-        ∃ ws, evalConcat env as = some ws ∧ connectAlias ws = blk.map some) ∧
-    (emitHeaderPort env pname (blk.map some) = some none →
-        ∀ b0 rest, blk = b0 :: rest → blk = ascBits pname b0.idx blk.length) ∧
-    (∃ r, emitHeaderPort env pname (blk.map some) = some r) := by
-  have hfm : ((blk.map some).reverse).filterMap id = blk.reverse := by
-    have := filterMap_reverse_block blk 0
-    simpa only [List.replicate_zero, List.append_nil] using this
-  have hval : ∀ b, some b ∈ (blk.map some).reverse → ValidBit env b := by
-    intro b hb
-    rcases List.mem_map.mp (List.mem_reverse.mp hb) with ⟨x, hx, hxe⟩
-    cases hxe
-    exact hv _ hx
-  obtain ⟨as0, h1, h2⟩ := emitConcat_eval env (blk.map some).reverse hval
-  unfold emitHeaderPort
-  by_cases hc : isConcatenated (blk.map some) (some pname) = true
-  · rw [if_pos hc, h1]
-    refine ⟨?_, ?_, ⟨_, rfl⟩⟩
-    · intro as has
-      simp only [Option.map_some, Option.some.injEq] at has
-      subst has
-      refine ⟨_, h2, ?_⟩
-      rw [hfm]
-      simp [connectAlias]
-    · intro h; simp at h
-  · rw [if_neg hc]
-    refine ⟨?_, ?_, ⟨_, rfl⟩⟩
-    · intro as has; simp at has
-    · intro _ b0 rest hb
-      have hc' : isConcatGo (blk.map some ++ List.replicate 0 none) (some pname) false false none = false := by
-        simp only [List.replicate_zero, List.append_nil]
-        cases h : isConcatenated (blk.map some) (some pname) with
-        | true => exact absurd h hc
-        | false => exact h
-      exact (isConcatGo_false blk 0 pname none hc' b0 rest hb).2
-
-/-- **assign_regen.**  An assignment instance of width `w ≥ 1` whose `o` pins sit on `c[lo..lo+w-1]`
-    and whose `i` pins sit on `d[lo'..lo'+w-1]` (pin `k` on bit `k` from the low end — what the repaired
-    reader builds) is written as `assign c[..] = d[..];` and read back as an assignment instance of the
-    same width joining the same bits pin by pin. -/
-theorem assign_regen (env : CableEnv) (c d : String) (lo lo' : Int) (w : Nat)
-    (lc : Int) (wc : Nat) (ld : Int) (wd : Nat)
-    (hc : env c = some (lc, wc)) (hd : env d = some (ld, wd))
-    (hc0 : lc ≤ lo) (hc1 : lo + w < lc + wc) (hd0 : ld ≤ lo') (hd1 : lo' + w < ld + wd) :
-    ∃ l r, emitAssign env ((ascBits c lo (w + 1)).map some) ((ascBits d lo' (w + 1)).map some) = some (l, r) ∧
-      readAssign env l r = some ((ascBits c lo (w + 1)).map some, (ascBits d lo' (w + 1)).map some) := by
-  have side : ∀ (c : String) (lo : Int) (lc : Int) (wc : Nat), env c = some (lc, wc) → lc ≤ lo →
-      lo + w < lc + wc →
-      ∃ a, emitAssignSide env ((ascBits c lo (w + 1)).map some) = some a ∧
-        evalAtom env a = some (ascBits c lo (w + 1)).reverse := by
-    clear hc hd hc0 hc1 hd0 hd1
-    intro c lo lc wc hc h0 h1
-    obtain ⟨a, ha, hev⟩ := emitRange_eval env c lc wc lo (lo + w) hc h0 (by omega) (by omega)
-    refine ⟨a, ?_, by rw [hev, ascBits_reverse]⟩
-    have hcat : isConcatenated ((ascBits c lo (w + 1)).map some) (some c) = false :=
-      isConcatGo_asc c (w + 1) lo none (Or.inl rfl)
-    have hlast : ((ascBits c lo (w + 1)).map some).getLast? = some (some ⟨c, lo + w⟩) := by
-      rw [List.getLast?_map, ascBits_getLast]; rfl
-    unfold emitAssignSide
-    rw [ascBits_succ] at hcat hlast ⊢
-    simp only [List.map_cons] at hcat hlast ⊢
-    rw [hcat, hlast]
-    simpa using ha
-  obtain ⟨l, hl, hle⟩ := side c lo lc wc hc hc0 hc1
-  obtain ⟨r, hr, hre⟩ := side d lo' ld wd hd hd0 hd1
-  refine ⟨l, r, ?_, ?_⟩
-  · unfold emitAssign
-    simp only [hl, hr]
-  · unfold readAssign
-    simp only [hle, hre, connectAssign, List.reverse_reverse, List.length_reverse, ascBits_length,
-      Nat.min_self]
-    rw [List.take_of_length_le (by rw [ascBits_length]; omega),
-      List.take_of_length_le (by rw [ascBits_length]; omega)]
-
-/-- the whole list of assigns of a module: same count, same widths, same bits (map-wise) -/
-theorem assign_regen_all (env : CableEnv) (assigns : List (PinVec Bit × PinVec Bit))
-    (h : ∀ a ∈ assigns, ∃ l r, emitAssign env a.1 a.2 = some (l, r) ∧ readAssign env l r = some a) :
-    (assigns.mapM (fun a => (emitAssign env a.1 a.2).bind (fun lr => readAssign env lr.1 lr.2))) = some assigns := by
-  induction assigns with
-  | nil => rfl
-  | cons a as ih =>
-    obtain ⟨l, r, h1, h2⟩ := h a List.mem_cons_self
-    rw [List.mapM_cons]
-    simp only [h1, Option.bind_some, h2, Option.bind_eq_bind]
-    rw [ih (fun x hx => h x (List.mem_cons_of_mem _ hx))]
-    rfl
-
-example : ∃ l r, emitAssign exEnv [some ⟨"a", 5⟩, some ⟨"a", 6⟩] [some ⟨"a", 4⟩, some ⟨"a", 5⟩] = some (l, r) :=
-  ⟨_, _, rfl⟩
 
 /-- **write_order_defined.**  When the work list emptied within the fuel (`finished`, reported by the
     driver and checked by the harness on every netlist), the from-top order contains exactly the
